@@ -403,7 +403,7 @@ impl<'a> PeriodicBudgetTracker<'a> {
     pub fn pre_allocate(&mut self, bytes: usize) -> Result<()> {
         self.budget.allocate(self.pool, bytes)?;
         self.total_bytes += bytes;
-        self.last_reported_bytes = self.total_bytes;
+        self.last_reported_bytes += bytes;
         Ok(())
     }
 
